@@ -46,6 +46,9 @@ def run(P, R, tier, cfg):
     _precedence(P, R)
     _scanners(P, R)
     _salience(P, R)
+    from rules import connectives
+    connectives.check_constructors(P, R, "f")
+    _exact_consumption(P, R)
 
 
 # ------------------------------------------------------------------------------------------------ a
@@ -375,3 +378,109 @@ def _salience(P, R):
         R.hold("e", "salience capture %r admits a leading `-`" % pat, fn=es)
     else:
         R.violate("e", "salience-sign", "the salience capture group of %r cannot start with `-`: a negative salience is not matched and the rule silently gets salience 0" % pat, es)
+
+
+# ------------------------------------------------------------------------------------------------ g
+# Text handed from one parsing step to the next must be the text that was written, minus what the step consumed - exactly.
+# Operations that remove a RUN of a character (trim_*_matches), rewrite text (replace) or fold case change what the next
+# step sees: `!!c` parsed through trim_start_matches('!') is Not(c), not Not(Not(c)).
+LOSSY_OPS = ("trim_start_matches", "trim_end_matches", "trim_matches", "trim_left_matches", "trim_right_matches", "replace", "replacen",
+             "to_lowercase", "to_uppercase", "to_ascii_lowercase", "to_ascii_uppercase", "retain", "remove_matches")
+COMPARE_ONLY = ("::eq", "::ne", "::starts_with", "::ends_with", "::contains", "::as_str", "::deref", "::as_ref", "::borrow", "::cmp", "::partial_cmp")
+REVIEWED_LOSSY = {
+    ("parse_action_statement", "trim_matches", '"'): "SetWorkflowData(\"key=value\"): the argument is one quoted string, so the key slice starts with its opening quote; stripping quote characters from a key (which cannot contain quotes) is the unquoting step",
+}
+WHITESPACE = {" ", "\t", "\n", "\r"}
+
+
+def _only_compared(f, local, depth=0, seen=None):
+    """every use of `local` is a comparison (or a borrow / as_str / deref whose result is only compared)."""
+    seen = seen if seen is not None else set()
+    if local in seen or depth > 6:
+        return True
+    seen.add(local)
+    for bb in sorted(f.normal_blocks()):
+        for st in f.stmts(bb):
+            if not (isinstance(st, list) and len(st) > 4 and st[2] == "="):
+                continue
+            rv = st[4]
+            uses = _rv_locals(rv)
+            if local in uses:
+                if rv[0] in ("ref", "use", "cast") and not st[3][1]:
+                    if not _only_compared(f, st[3][0], depth + 1, seen):
+                        return False
+                else:
+                    return False
+        t = f.term(bb)
+        if t[2] == "call":
+            c = f.call_at(bb)
+            if c is None:
+                continue
+            if any(a[0] in "cm" and a[1][0] == local for a in c.args):
+                nm = c.name
+                if any(nm.endswith(x) for x in COMPARE_ONLY):
+                    if nm.endswith(("::as_str", "::deref", "::as_ref", "::borrow")) and not c.dest[1]:
+                        if not _only_compared(f, c.dest[0], depth + 1, seen):
+                            return False
+                    continue
+                return False
+    return True
+
+
+def _rv_locals(rv):
+    out = set()
+
+    def op(o):
+        if isinstance(o, list) and o and o[0] in ("c", "m") and isinstance(o[1], list):
+            out.add(o[1][0])
+    k = rv[0]
+    if k == "use":
+        op(rv[1])
+    elif k == "ref":
+        out.add(rv[2][0])
+    elif k == "cast":
+        op(rv[-1] if isinstance(rv[-1], list) else rv[1])
+        for x in rv[1:]:
+            op(x)
+    elif k in ("bin", "un"):
+        for x in rv[1:]:
+            op(x)
+    elif k == "agg":
+        for x in rv[3]:
+            op(x)
+    else:
+        for x in rv[1:]:
+            op(x)
+    return out
+
+
+def _exact_consumption(P, R):
+    n = 0
+    for name in sorted(P.fns):
+        if not name.startswith("parser::grl::"):
+            continue
+        f = P.fns[name]
+        for c in f.calls():
+            if c.bb not in f.normal_blocks():
+                continue
+            op = c.name.rsplit("::", 1)[-1]
+            if op not in LOSSY_OPS or not ("str" in c.name or "String" in c.name):
+                continue
+            n += 1
+            lit = None
+            if len(c.args) > 1:
+                a = strip(f.sym_operand(c.args[1]))
+                if a[0] == "const":
+                    lit = a[2] if not isinstance(a[2], dict) else a[2].get("char", str(a[2]))
+            fshort = f.short_name.split("::")[0] if "{closure" in f.short_name else f.short_name
+            key = (fshort, op, lit)
+            if lit is not None and isinstance(lit, str) and lit in WHITESPACE:
+                R.hold("g", "%s: %s(%r) only removes layout" % (fshort, op, lit), fn=f, line=c.line)
+            elif op.startswith("to_") and not c.dest[1] and _only_compared(f, c.dest[0]):
+                R.hold("g", "%s: %s result is only compared (keyword match), never stored" % (fshort, op), fn=f, line=c.line)
+            elif key in REVIEWED_LOSSY:
+                R.hold("g", "%s: %s(%r) reviewed - %s" % (fshort, op, lit, REVIEWED_LOSSY[key]), fn=f, line=c.line)
+            else:
+                R.violate("g", "lossy-text-op:%s:%s:%s" % (fshort, op, lit),
+                          "%s applies %s(%r) to rule text that is then parsed or stored: it removes or rewrites more than the one token the grammar step consumes (e.g. `!!c` becomes `c` after trim_start_matches('!'), so the tree is not the one written)" % (fshort, op, lit), f, c.line)
+    R.count("lossy_text_ops", n)
